@@ -145,7 +145,7 @@ CLAIMED = {
    text="The operand/successor table of all 54 instruction and 12 terminator types is regenerated on every run (types listed from the source by go/ast; a live instance of each "
         "analysed by reflection with slots identified by address) and the Lean kernel decides on the complete table that Operands() exposes exactly one live slot per value "
         "the instruction uses, that Succs() is exactly LLVM's successor list in order, and that it follows retargeting. Dynamic oracle: writing a fresh value through each "
-        "slot of constructor-built instructions changes the printed instruction exactly there. Every row is analysed in six shapes (arguments wrapped in *ir.Arg and empty top-level lists included; distinct values, sparse helper lists, one value in every slot, the instruction itself in every slot). Two defects were repaired by fix commits.",
+        "slot of constructor-built instructions changes the printed instruction exactly there. Every row is analysed in seven shapes (arguments wrapped in *ir.Arg, arguments passed as metadata and empty top-level lists included; distinct values, sparse helper lists, one value in every slot, the instruction itself in every slot). Two defects were repaired by fix commits.",
    note="Lean kernel (decide +kernel); trusted: table generator (go/ast + reflection analyser), hand-written specSuccs, harness.",
    technique="Lean 4 kernel decision over a table regenerated from source + differential oracle on the implementation", design="§4 C15"),
  "C10": dict(
